@@ -612,6 +612,7 @@ const strAxioms = `(assert (= (slen sempty) 0))
 (assert (forall ((s Str) (t Str)) (! (or (streq s t) (not (= (slen s) (slen t))) (and (<= 0 (sdiff s t)) (< (sdiff s t) (slen s)) (not (= (sat s (sdiff s t)) (sat t (sdiff s t)))))) :pattern ((streq s t)))))
 (assert (forall ((a (Array Int Int)) (o Int) (n Int)) (! (=> (>= n 0) (= (slen (absB a o n)) n)) :pattern ((absB a o n)))))
 (assert (forall ((a (Array Int Int)) (o Int) (n Int) (i Int)) (! (=> (and (<= 0 i) (< i n)) (= (sat (absB a o n) i) (select a (+ o i)))) :pattern ((sat (absB a o n) i)))))
+(assert (forall ((a (Array Int Int)) (i Int) (v Int) (o Int) (n Int)) (! (=> (or (< i o) (>= i (+ o n))) (= (absB (store a i v) o n) (absB a o n))) :pattern ((absB (store a i v) o n)))))
 (assert (forall ((s Str) (t Str)) (! (= (slen (sconcat s t)) (+ (slen s) (slen t))) :pattern ((sconcat s t)))))
 (assert (forall ((s Str) (t Str) (i Int)) (! (= (sat (sconcat s t) i) (ite (< i (slen s)) (sat s i) (sat t (- i (slen s))))) :pattern ((sat (sconcat s t) i)))))
 (assert (forall ((s Str) (t Str)) (! (=> (= (srank s) (srank t)) (= s t)) :pattern ((srank s) (srank t)))))
@@ -620,12 +621,13 @@ const strAxioms = `(assert (= (slen sempty) 0))
 
 // strPrelude includes the string axioms only when a query mentions strings at all.
 func strPrelude(seen map[string]bool) (string, bool) {
-	for _, f := range []string{"slen", "sat", "sempty", "streq", "absB", "sconcat", "srank", "sprefix"} {
+	codec, cq := codecPrelude(seen)
+	for _, f := range []string{"slen", "sat", "sempty", "streq", "absB", "sconcat", "srank", "sprefix", "crcUpd", "ssub"} {
 		if seen[f] {
-			return strDecls + strAxioms, true
+			return strDecls + strAxioms + codec, true
 		}
 	}
-	return "", false
+	return codec, cq
 }
 
 // ---- heap keys
